@@ -613,10 +613,10 @@ def execute_estimation_with_saved_empi_dists_sequences(
                 / f"empi_dists_{empi_dists_index}.pickle",
                 qtomography,
                 None,
-                simulation_setting.estimator,
-                simulation_setting.loss,
+                copy.deepcopy(simulation_setting.estimator),
+                copy.deepcopy(simulation_setting.loss),
                 simulation_setting.loss_option,
-                simulation_setting.algo,
+                copy.deepcopy(simulation_setting.algo),
                 simulation_setting.algo_option,
                 is_computation_time_required=is_computation_time_required,
                 is_detailed_results_required=is_detailed_results_required,
@@ -650,10 +650,11 @@ def execute_estimation(
             joblib.delayed(_execute_estimation)(
                 qtomography,
                 empi_dists_seq,
-                simulation_setting.estimator,
-                simulation_setting.loss,
+                # estimation updates loss and algo, and tasks may run in threads of one process.
+                copy.deepcopy(simulation_setting.estimator),
+                copy.deepcopy(simulation_setting.loss),
                 simulation_setting.loss_option,
-                simulation_setting.algo,
+                copy.deepcopy(simulation_setting.algo),
                 simulation_setting.algo_option,
                 is_computation_time_required,
                 is_detailed_results_required,
